@@ -43,6 +43,25 @@ fn main() {
     io::Println(a > b);
 }
 """,
+    "float_to_int": """import "std/io";
+fn main() {
+    let f: f64 = 3000000000.0;
+    let u: u32 = f as u32;
+    io::Println(u);
+    let g: f64 = 1.0e19;
+    let v: u64 = g as u64;
+    io::Println(v);
+    let h: f32 = 200.0;
+    let w: u8 = h as u8;
+    io::Println(w);
+    let n: f64 = -3.9;
+    let k: i32 = n as i32;
+    io::Println(k);
+    let m: i64 = -5;
+    let q: f64 = m as f64;
+    io::Println(q / 2.0);
+}
+""",
     "float_loop": """import "std/io";
 fn main() {
     let s: f64 = 0.0;
